@@ -1,8 +1,8 @@
-SPECIFICATION Spec
+SPECIFICATION FairSpec
 CONSTANTS
-  StepCount = 3
-  MaxScen = 3
-  MaxSuites = 3
+  StepCount = 2
+  MaxScen = 2
+  MaxSuites = 2
   MaxFail = 0
   FixDrain = TRUE
   FixCtrlC = TRUE
@@ -14,10 +14,5 @@ CONSTANTS
   AllowError = TRUE
   AliveCheck = TRUE
 INVARIANT ProtocolOK
-INVARIANT ClosedAtEnd
-INVARIANT NoProblemLost
-INVARIANT AtMostOneRequestAfterStop
-INVARIANT AtMostOneScenarioAfterStop
-INVARIANT StepsBounded
-INVARIANT FailureLimit
+PROPERTY Termination
 CHECK_DEADLOCK FALSE
